@@ -169,6 +169,17 @@ check("C11", "exploration",
       "exhaustive enumeration of names x positions on compiled generated code",
       "DESIGN.md 4 C11")
 
+check("C02", "exploration",
+      "rustc is the observer. lib form: every operation of the bounded operation space + feature operations under every "
+      "combination of deprecation strategy, other-variant, skip-none and normalization + targeted families (variable "
+      "defaults, multi-operation documents, same type name by two paths, list of ID); derive form: real "
+      "#[derive(GraphQLQuery)] in crates whose only dependency is graphql_client; cli form: files written by the real "
+      "binary mounted as modules. Generation must succeed, the output must parse, rustc must report no error for the case.",
+      "Trusted: rustc. The supported subset is defined by the case generator (reference-valid documents, names distinct "
+      "after case conversion, README-provided scalar aliases). Compile errors are attributed to cases by primary span.",
+      "bounded exhaustive exploration of programs x options x delivery forms with the compiler as oracle",
+      "DESIGN.md 4 C02")
+
 NOT_APPLICABLE = []
 
 
